@@ -121,6 +121,32 @@ CLAIMS.update({
         note=TRUST),
 })
 
+CLAIMS.update({
+    'C02': dict(
+        text=('Scoped to the extractors. BOUNDED units run the real request-line, status-line, request/response header-line, cookie, content-type, quoted-string, chomp / line-predicate and method-table '
+              'code on every input up to N bytes over all byte values (every allocation-failure pattern) and check a reference-free re-join walk (reported components are byte-identical sub-ranges in wire order, '
+              'separated by whitespace / the colon only, nothing dropped or invented), the exact split of RFC 7230 well-formed lines, and equality with an independent reference. Unbounded dfcc contracts: '
+              'htp_chomp, the line predicates, htp_parse_response_header_generic (two provenance-checked copies; every byte outside the two ranges is ":" or whitespace), header merge = old ", " new on both '
+              'sides, htp_parse_protocol full domain. Case-insensitive first-match lookup and wire order are C17\'s table contracts. The end-to-end "grammar sentence => transaction" composition is not machine-checked.'),
+        design='4/C02', technique='CBMC bounded reference equality with native replay on the real extractors; dfcc contracts with a provenance-logging bstr_dup_mem stub',
+        note=TRUST + 'C02: htp_parse_request_line_generic_ex / htp_parse_request_header_generic / htp_parse_response_line_generic have bounded units only; htp_parse_authorization* not covered; bstr_dup_mem modelled in bounded units (checked by c13_dup_model_lemma); no memchr model in CBMC.'),
+    'C07': dict(
+        text=('Containment only. The two decompressor sink callbacks are enforced against the bomb inequality taken from the statement (OK only if entity_len <= limit or entity_len <= 2048 x message_len; entity_len += exactly '
+              'what the hooks see). htp_gzip_decompressor_decompress (one layer, restart heuristics exhausted, every zlib/LZMA stub behaviour, inductive loop contract with variant): every delivery is <= 8192 bytes of the '
+              'layer\'s own buffer, or the untouched input, or the empty marker; no delivery after a refused one; NO non-empty delivery on a dead stream (holds since the fix recorded in known_findings); object invariant '
+              're-established. Restart function: at most 3 re-entries. Factory and header probe under contract. Layer limits: BOUNDED unit on the real chain construction. Faithfulness of inflate/LZMA output is a statement '
+              'about external code and is NOT claimed.'),
+        design='4/C07', technique='CBMC code contracts (dfcc) with frame stubs for zlib/LZMA and a call-site-checking sink stub; bounded harness for the layer chain',
+        note=TRUST + 'C07: zlib/LZMA assumed to stay inside their buffers and to make progress on Z_OK/SZ_OK; restart re-entry and two-layer recursion inside one call are not mechanised (composition on paper, notes/c07.md).'),
+    'C14': dict(
+        text=('Scoped. Per call of htp_mpartp_parse + htp_martp_process_aside from EVERY well-formed matcher state (so for every call history), BOUNDED by chunk length (3 bytes without / 2 bytes with stored pieces; '
+              'thorough 4 / 3): memory safety with exact-size heap chunks, every range handed to the part handlers lies inside the chunk or a stored piece and never wraps, exact byte conservation '
+              '(every chunk byte is handed out, stored, the set-aside CR, or a delimiter byte), well-formedness again on return. Two chunking defects found this way are repaired in /repo. '
+              'NOT decided: part contents / Content-Disposition values beyond conservation, parts -> parameters, end-to-end chunking invariance.'),
+        category='model_checking', design='4/C14', technique='CBMC bounded per-call harness from an arbitrary well-formed state (goto-based matcher has no loop-contract form), native replay',
+        note=TRUST + 'C14: the unit compiles a line-preserving control-flow rewrite of htp_mpartp_parse (each goto STATE_SWITCH -> flag + jump to the loop end; aborts as UNDECIDED if a pattern does not fire) and a model of the boundary_pieces builder; bstr_builder_append_mem on boundary_pieces assumed not to fail (KNOWN_F_C14_APPEND_FAIL, allocation failure only).'),
+})
+
 NOT_YET = 'not yet built in this session (planned in DESIGN.md section 4); no check is registered, so nothing is claimed'
 NA = {
     'C08': 'amortised cost over a whole stream is not program state expressible at a function boundary; per-loop variants are proved and reported under C01 (DESIGN.md section 5)',
@@ -141,7 +167,7 @@ def manifest():
             evidence_file='/verif/evidence/%s.json' % pid,
             replay_cmd_template='./bin/vcheck --replay {path}',
             engine='vcheck',
-            level_claimed=dict(category='proof', text=c['text'], design_ref=c['design']),
+            level_claimed=dict(category=c.get('category', 'proof'), text=c['text'], design_ref=c['design']),
             level_note=c['note'],
             technique=c['technique']))
     na = []
